@@ -29,7 +29,7 @@ import (
 func init() {
 	core.Register(&core.Monitor{
 		ID:            "C39",
-		Rule:          "PRNG seeds x depths 1..6, messages of 0..100 bytes; each key is evolved through all 2^depth periods; selected periods: all for depth <= 4, {0,1,2^(d-1)-1,2^(d-1),2^d-2,2^d-1} + 4 random for depth 5-6; per selected period: verification at every t' < 2^depth (depth <= 4) or tree neighbours t xor 2^k, t+-1, 0, last, 3 random (5-6), at t' >= 2^depth, changed messages, foreign / bit-flipped / mis-sized public keys, signature bit flips (all bits at one period per key, 32 sampled at the others), earlier-period signing attempts, key-material scan; depth 6 additionally through kes.VerifySignedKES and ledger.VerifyKesComponents (slot arithmetic); a case is one Verify/Sign/scan call; distinct by (depth, key hash, period, kind, position)",
+		Rule:          "PRNG seeds x depths 1..6, messages of 0..100 bytes; each key is evolved through all 2^depth periods; selected periods: all for depth <= 4, {0,1,2^(d-1)-1,2^(d-1),2^d-2,2^d-1} + 4 random for depth 5-6; per selected period: verification at every t' < 2^depth (depth <= 4) or tree neighbours t xor 2^k, t+-1, 0, last, 3 random (5-6), at t' >= 2^depth, changed messages, foreign / bit-flipped / mis-sized public keys, signature bit flips (all bits at one period per key, 32 sampled at the others), earlier-period signing attempts, key-material scan; per selected period and entry point a history genuine -> tampered -> genuine ...: signature bits (all 3584 at one period per depth-6 key through VerifySignedKES and VerifyKesComponents, sampled otherwise), replaced vk path, key / message flips, other periods, each as a fresh copy and written IN PLACE into the buffers the genuine call used, arguments compared for modification, buffers overwritten afterwards; depth 6 additionally through kes.VerifySignedKES and ledger.VerifyKesComponents (slot arithmetic); a case is one Verify/Sign/scan call; distinct by (depth, key hash, period, kind, position)",
 		MinNontrivial: 100000,
 		Assumptions: []string{
 			"crypto/ed25519 and golang.org/x/crypto/blake2b are correct",
@@ -465,6 +465,8 @@ func atPeriod(k *kcase, sk *kes.SecretKey, t uint64, r *core.Rand, fullFlips boo
 			}
 		}
 	}
+	// ---- the same tamper classes right after a genuine verification, fresh copy and in place
+	k.afterGenuine(sig, t, r, fullFlips)
 	// ---- the evolved key cannot sign for an earlier period
 	return earlier(k, sk, t, r)
 }
